@@ -1,9 +1,13 @@
 package vnode
 
 import (
+	"io"
+
 	"github.com/cube2222/octosql/execution"
 	"github.com/cube2222/octosql/execution/nodes"
 	"github.com/cube2222/octosql/octosql"
+	"github.com/cube2222/octosql/outputs/batch"
+	"github.com/cube2222/octosql/physical"
 	"github.com/cube2222/octosql/zzverif"
 	"github.com/cube2222/octosql/zzverif/vx"
 )
@@ -119,5 +123,67 @@ func VerifC05OrderBy() {
 	}
 	zzverif.Assert(firstN, "not-emitted-rows-sort-after-emitted")
 	zzverif.Known("C05-orderby-limit-counts-distinct-rows", zzverif.And(limited, zzverif.And(n < int64(rows), hasDuplicateRows(in))))
+	zzverif.Assert(len(out) == want, "exactly-min-n-rows")
+}
+
+// recordingFormat is the Format handed to the output printers: it records the rows written.
+type recordingFormat struct {
+	rows   *[][]octosql.Value
+	closed *int
+}
+
+func (f recordingFormat) SetSchema(physical.Schema) {}
+func (f recordingFormat) Write(v []octosql.Value) error {
+	*f.rows = append(*f.rows, v)
+	return nil
+}
+func (f recordingFormat) Close() error { *f.closed++; return nil }
+
+// VerifC05Batch: the batch table printer (live=false) wired the way cmd/root.go wires
+// "batch_table": limit evaluated up front, ORDER BY keys and LIMIT handled by the printer, plus a
+// nodes.Limit underneath when there is no ORDER BY and the source cannot retract.
+func VerifC05Batch() {
+	cols := zzverif.Param("COLS")
+	in := recs(smallTable("t", zzverif.Param("ROWS"), cols, zzverif.Param("DOM")))
+	nkeys := zzverif.Param("KEYS")
+	keys := make([]int, nkeys)
+	dirs := make([]int, nkeys)
+	keyExprs := make([]execution.Expression, nkeys)
+	for i := range keys {
+		keys[i] = i % cols
+		dirs[i] = 1 - 2*zzverif.Choice("desc", 2)
+		keyExprs[i] = execution.NewVariable(0, keys[i])
+	}
+	limExpr, n := ndLimit(zzverif.Param("K"))
+	noRetractions := zzverif.Choice("noRetractionsPossible", 2) == 1
+	var plan execution.Node = vx.NewScriptSource(vx.RecordsToMsgs(in))
+	if nkeys == 0 && noRetractions {
+		plan = nodes.NewLimit(plan, limExpr)
+	}
+	var written [][]octosql.Value
+	closed := 0
+	printer := batch.NewOutputPrinter(plan, keyExprs, dirs, &n, noRetractions, physical.Schema{},
+		func(io.Writer) batch.Format { return recordingFormat{rows: &written, closed: &closed} }, false)
+	err := printer.Run(vx.ExecCtx())
+	zzverif.Reach("ran")
+	zzverif.Assert(err == nil, "no-error")
+	out := recs(written)
+	rows := len(in)
+	want := zzverif.IteInt(n < int64(rows), int(n), rows)
+	zzverif.Assert(subMultiset(out, in), "output-is-sub-multiset-of-input")
+	sorted := true
+	for i := 0; i+1 < len(out); i++ {
+		sorted = zzverif.And(sorted, keyLessEq(out[i].Values, out[i+1].Values, keys, dirs))
+	}
+	zzverif.Assert(sorted, "output-sorted-by-key")
+	firstN := true
+	if len(out) > 0 {
+		last := out[len(out)-1].Values
+		for _, r := range in {
+			left := vx.Count(in, r.Values) > vx.Count(out, r.Values)
+			firstN = zzverif.And(firstN, zzverif.Implies(left, keyLessEq(last, r.Values, keys, dirs)))
+		}
+	}
+	zzverif.Assert(firstN, "not-emitted-rows-sort-after-emitted")
 	zzverif.Assert(len(out) == want, "exactly-min-n-rows")
 }
